@@ -17,7 +17,7 @@ func init() {
 			at := 1 + r.Intn(len(typed))
 			kind := []string{"printf", "transient"}[r.Intn(2)]
 			text := []string{"async message", "two\nlines", strings.Repeat("w", w+3)}[r.Intn(3)]
-			sp := Spec{Prompt: "> ", Mode: "emacs", Runs: 1, Width: w, Height: 24, Async: []Async{{At: at, Kind: kind, Text: text}}}
+			sp := Spec{Prompt: "> ", Mode: "emacs", Runs: 1, Width: w, Height: 24, Patience: 5, Async: []Async{{At: at, Kind: kind, Text: text}}}
 			var keys []string
 			for _, c := range typed {
 				keys = append(keys, string(c))
